@@ -21,7 +21,8 @@ import (
 //
 // alphabet  backend responsive | silent | closes its connections ; session idle | request in flight |
 //           no session ; cold start with a silent seed (Stop during the initial slot refresh) ; an endpoint is
-//           removed while the periodic hot-key collection runs, then Stop   (INPUT)
+//           removed while the periodic hot-key collection runs, then Stop ; Stop while the first connect to a
+//           backend is still in progress (it completes afterwards)   (INPUT)
 // bound     P, F, Sel (see Setup)
 // oracle    Stop returns; afterwards the port is closed, every downstream and upstream connection is closed
 //           and no goroutine of the processor is left
@@ -31,7 +32,7 @@ const c09redisAddr = "127.0.0.1:6400"
 
 func c09redisBody() {
 	backend := []string{"responsive", "silent", "closes"}[sched.Choose(sched.ClsInput, 3, "backend")]
-	state := []string{"idle-session", "request-in-flight", "no-session", "cold-start"}[sched.Choose(sched.ClsInput, 4, "state")]
+	state := []string{"idle-session", "request-in-flight", "no-session", "cold-start", "connect-in-flight"}[sched.Choose(sched.ClsInput, 5, "state")]
 	c09redis(backend, state)
 }
 
@@ -44,18 +45,24 @@ func c09redis(backend, state string) {
 	sched.OnReset(restore)
 	cl := cluster.New(2, 0, 2)
 	cl.Start()
-	if state == "cold-start" && backend != "responsive" {
+	if (state == "cold-start" || state == "connect-in-flight") && backend != "responsive" {
 		for _, n := range cl.Nodes {
 			n.Silent = true
 		}
+	}
+	if state == "connect-in-flight" {
+		vnet.HoldDials(true) // the first connect to a backend takes its time; Stop arrives meanwhile
 	}
 	seeds := []string{cl.Nodes[0].Addr, cl.Nodes[1].Addr}
 	p := vfNewProc(vfSvcConfig(0, nil, 0), seeds...)
 	p.Start()
 	var c *vnet.VConn
-	if state != "cold-start" {
+	if state != "cold-start" && state != "connect-in-flight" {
 		sched.WaitQuiescent()
 		sched.AdvanceTime(int64(slotsRefMinRate) + 1)
+		sched.WaitQuiescent()
+	}
+	if state == "connect-in-flight" {
 		sched.WaitQuiescent()
 	}
 	k := cl.KeyInGroup("k", 0, 0)
@@ -109,6 +116,10 @@ func c09redis(backend, state string) {
 	stopped := false
 	sched.GoNamed("stopper", func() { p.Stop(); stopped = true })
 	sched.WaitQuiescent()
+	if state == "connect-in-flight" {
+		vnet.HoldDials(false) // the connect completes now
+		sched.WaitQuiescent()
+	}
 	tag := fmt.Sprintf("backend=%s state=%s", backend, state)
 	if !stopped {
 		var who []string
